@@ -1,0 +1,45 @@
+//go:build verif
+// +build verif
+
+package onet
+
+import (
+	"go.dedis.ch/onet/v3/network"
+)
+
+// Helpers for the C09 verification harness (/verif/harness/cmd/c09).
+
+// VerifRestart starts a fresh server with the key, identity and address of a
+// server of this LocalTest that has been closed.
+func (l *LocalTest) VerifRestart(old *Server) *Server {
+	l.panicClosed()
+	var router *network.Router
+	var err error
+	switch l.mode {
+	case TCP:
+		var h *network.TCPHost
+		h, err = network.NewTCPHost(old.ServerIdentity, l.Suite)
+		if err != nil {
+			panic(err)
+		}
+		router = network.NewRouter(old.ServerIdentity, h)
+		router.UnauthOk = true
+	default:
+		router, err = network.NewLocalRouterWithManager(l.ctx, old.ServerIdentity, l.Suite)
+		if err != nil {
+			panic(err)
+		}
+	}
+	server := newServer(l.Suite, l.path, router, old.private)
+	server.StartInBackground()
+	l.Servers[server.ServerIdentity.ID] = server
+	l.Overlays[server.ServerIdentity.ID] = server.overlay
+	l.Services[server.ServerIdentity.ID] = server.serviceManager.services
+	return server
+}
+
+// VerifSendToTreeNode calls Overlay.SendToTreeNode directly with the instance's
+// token and message proxy (no configuration message).
+func (n *TreeNodeInstance) VerifSendToTreeNode(to *TreeNode, msg network.Message) (uint64, error) {
+	return n.overlay.SendToTreeNode(n.token, to, msg, n.protoIO, nil)
+}
